@@ -1,7 +1,7 @@
 #!/usr/bin/env python3
 """Regenerates MANIFEST.json from the table below (kept in one place so it is always valid)."""
 import json, subprocess
-HOOK_COMMITS = ["008d02b", "f9c7333"]
+HOOK_COMMITS = ["008d02b", "f9c7333", "e6906e7"]
 CHECKS = {
  "C01": ("exploration", "5.C01", "refinement of single-client command histories against an executable reference model, inside the deterministic whole-server simulation (virtual clock, scheduled sweeper thread, segmented transport)",
          "Seeded search over histories of string/key-space commands; every reply and, after every command, the complete stored dataset is compared with a Redis reference model evaluated at the exact virtual execution time. Exploration is the right level: the quantifier is over unbounded histories and argument values, which can only be sampled."),
@@ -38,6 +38,8 @@ CHECKS["C19"] = ("exploration", "5.C19", "seeded cursor iterations driven throug
   "Seeded search over key sets (0-400 elements, all types), COUNT/MATCH/TYPE options and interleavings of additions and deletions between SCAN/HSCAN/SSCAN/ZSCAN calls; completeness, soundness w.r.t. filters, reply shape and termination are decided over each recorded iteration. Key sets, options and interleavings are sampled.")
 CHECKS["C09"] = ("exploration", "5.C09", "crash-restart simulation: the dataset is built through the real command path, SAVE, the simulated process is killed, virtual clocks advance by a chosen downtime, a fresh server instance is booted from the same simulated directory; canonical dumps before and after are compared",
   "Seeded search over datasets (all six types, sizes at every length-encoding boundary up to 70000 elements, binary / marker / integer-like strings, all score classes, stream id limits, 16 databases, TTLs around the downtime) and downtimes; the oracle compares the stored dataset of the restarted process with the one saved, incl. deadlines to clock granularity. Datasets are unbounded, so they are sampled with forced boundary values.")
+CHECKS["C10"] = ("exploration", "5.C10", "fault injection at the libc disk boundary (errno, short write, crash before / after k bytes at the n-th open / write / rename of a save) with restart from the surviving directory; simulator-stepped background-save thread interleaved with client commands at guarded yield points; start-up from seeded damaged dump files under an allocation seam",
+  "Seeded search over (F) the failure point and kind of one save, (S) interleavings of the snapshot thread's per-key steps with commands that change, re-type, expire and delete those keys, and (D) prefixes / byte corruptions of valid dumps. Oracles: the dump on disk is byte-identical after a failed save and always loads to exactly the previous or the new dataset; every (value, deadline) pair in a concurrent snapshot was held by that key at one recorded instant; damaged files never cause a panic, a hang or an allocation sized by a length field. Failure points are enumerated densely for the first operations and sampled beyond; interleavings and corruptions are sampled.")
 NOT_APPLICABLE = []
 def main():
     import json as _j
